@@ -44,12 +44,17 @@ ASSUMPTIONS = [
     "integer mtimes (set explicitly); two writes may deliberately receive the same mtime",
     "ContentDir hashes its members by size/mtime (FileSystem.iter_file_hashes iterates the plain Dir): mirrored in the "
     "model and stated as a remark (content_dir_by_stat_note); the oracle's content-only clause covers ContentFile and "
-    "ContentFileSet, which is what the statement's 'content-hashed files' names",
+    "ContentFileSet, which is what the statement's 'content-hashed files' names; of a ContentDir the oracle demands only "
+    "that its hash is a function of its members' size/mtime/bytes and separates different member sets / sizes",
+    "the oracle reads 'tracks the filesystem' as: per value, the fresh hash is a function of the state the value names "
+    "(File: existence/size/mtime; ContentFile/ContentFileSet: bytes; Dir/FileSet: member set with size/mtime) and "
+    "different such states give different hashes (within one generated case)",
 ]
 RULE = ("op sequences (6-14 ops) over 3-7 objects of the 9 file classes + Staging values in a temp dir: write/append/"
         "remove/touch/copy_to/stage/unstage/mkdir/rmdir/Dir.copy_to/StagingDir.stage, hash/update_hash/is_valid/pickle "
         "round trip, and external writes/removes; after every op the cached and the freshly computed hash pre-image of "
-        "every object is compared with the model, and the property oracle is applied to the real objects. distinct = "
+        "every object is compared with the model, and the property oracle (fresh after write/copy/stage; is_valid <-> hash "
+        "comparison; hash <-> named state bijective; no exception, deterministic) is applied to the real objects. distinct = "
         "distinct op-sequence texts; non-trivial = the sequence contains at least one redun-mediated write/copy/stage")
 LEVEL_TEXT = ("Proved in Lean for all filesystems, universes and op sequences (full strength, on the model of the repaired "
               "code): fresh_after_op / fresh_after_ops (after every redun-mediated write, append, copy_to, stage, unstage, "
@@ -458,7 +463,7 @@ def run_cases(ctx, cases):
 def run(ctx):
     cases = [("corpus-%d" % i, ops) for i, ops in enumerate(CORPUS)]
     rng = ctx.rng
-    for i in range(ctx.n(350, 5000)):
+    for i in range(ctx.n(300, 5000)):
         cases.append(("gen-%d" % i, gen_case(rng, rng.choice([6, 8, 10, 14]))))
     run_cases(ctx, cases)
 
